@@ -109,12 +109,15 @@ def classify(r, src, nfiles_lines):
         return None
     if st == "panic":
         where = unhx(r.get("where")) or "?"
+        where, _, func = where.partition("@")
         where = re.sub(r"^.*/repo/", "", where)
         where = re.sub(r"^.*/registry/src/[^/]+/", "", where)
         where = re.sub(r"^/rustc/[0-9a-f]+/library/", "rust-std/", where)
         fname = where.rsplit(":", 1)[0]
+        func = re.sub(r"::\{\{closure\}\}|::h[0-9a-f]{16}$", "", func or "?")
         msg = re.sub(r"\d+", "#", (unhx(r.get("msg")) or "").split("\n")[0])[:60]
-        return ("panic@%s:%s" % (fname, msg), "panic at %s: %s" % (where, (unhx(r.get("msg")) or "")[:80]))
+        # call site = source file of the panic + innermost library function on the stack + message (no line numbers)
+        return ("panic@%s@%s:%s" % (fname, func, msg), "panic at %s in %s: %s" % (where, func, (unhx(r.get("msg")) or "").split("\n")[0][:80]))
     if st == "timeout":
         return ("timeout", "compilation does not terminate")
     if st == "abort":
